@@ -277,7 +277,7 @@ def rule_guardtable(ctx):
     for d in divs:
         pos = positive_facts(d.pc)
         total = any(_is_sum(x) and x.a[1][0].op == "param" and x.a[1][0].a[0] == "weights" for x in pos)
-        comparable = any(_is_sum(x) and "comparisons" in tm.params_of(x) and "weights" not in tm.params_of(x) for x in pos)
+        comparable = any((_is_sum(x) or (x.op == "call" and call_name(x) in ("np.any", "builtins.any"))) and "comparisons" in tm.params_of(x) and "weights" not in tm.params_of(x) for x in pos)
         own = positive_term(d.den, d.pc)
         yield ob("C01.GUARDTABLE", f, "chord.weighted_accuracy:zero-total", total, "exit when all weights are zero precedes the normalisation", node=d.node)
         yield ob("C01.GUARDTABLE", f, "chord.weighted_accuracy:no-comparable", comparable, "exit when no comparison is comparable precedes the normalisation", node=d.node)
@@ -949,9 +949,10 @@ def rule_valueden(ctx):
                 yield ob(R, f, cons, True, "reviewed: %s" % why, node=d.node)
             else:
                 yield ob(R, f, cons, False, "division by the data-dependent value %s: no test on the path proves it non-zero and it is in no reviewed class, so the degenerate input that zeroes it yields NaN/inf instead of a finite score" % tm.show(den, 4), node=d.node)
-    stale = [VALUEDEN_REVIEWED[i][0] for i in range(len(VALUEDEN_REVIEWED)) if i not in matched]
-    if stale:
-        raise AnalysisError(R, "reviewed denominators no longer found in: %s" % ", ".join(sorted(set(stale))))
+    # a reviewed denominator that is gone (rewritten, guarded, inlined elsewhere) needs no review; a vanished function is an anchor lost
+    gone = sorted({VALUEDEN_REVIEWED[i][0] for i in range(len(VALUEDEN_REVIEWED)) if not ctx.program.has_func(VALUEDEN_REVIEWED[i][0])})
+    if gone:
+        raise AnalysisError(R, "functions with reviewed denominators vanished: %s" % ", ".join(gone))
 
 
 
